@@ -33,7 +33,7 @@ fn floors(_t: Tier) -> Vec<(&'static str, u64)> {
     vec![("evaluations", 8_000), ("refusals_observed", 200), ("softmax_rows_monitored", 300), ("elements_compared", 50_000)]
 }
 
-const FUNCS: u64 = 26;
+const FUNCS: u64 = 29;
 const POWF_EXP: [f64; 8] = [-2.0, -1.0, -0.5, 0.5, 1.0, 2.0, 3.0, 3.5];
 
 fn check_value(ctx: &mut Ctx, name: &str, d: &[usize], vals_in: &[f64], kind: &OpKind, exact: bool) {
@@ -42,7 +42,8 @@ fn check_value(ctx: &mut Ctx, name: &str, d: &[usize], vals_in: &[f64], kind: &O
         Some(w) => w,
         None => return,
     };
-    let scale = want.max_abs().max(t.max_abs()).max(1.0);
+    // bounded functions: the tolerance is relative to the outputs, not to (possibly large) arguments
+    let scale = if matches!(kind, OpKind::Softmax | OpKind::Sigmoid | OpKind::Exp) { want.max_abs().max(1.0) } else { want.max_abs().max(t.max_abs()).max(1.0) };
     let mut results: Vec<(Vec<usize>, Vec<f64>, bool)> = vec![];
     for tracked in [false, true] {
         let a = if tracked { arr(d, vals_in).tracked() } else { arr(d, vals_in) };
@@ -254,9 +255,29 @@ pub fn run_case(ctx: &mut Ctx, fam: &str, k: u64, r: &mut Rng) {
             name = "neg-q".into();
             check_value(ctx, "neg", &d, &q, &OpKind::Neg, true)
         }
-        _ => {
+        25 => {
             name = "relu-q".into();
             check_value(ctx, "relu", &d, &q, &OpKind::Relu, true)
+        }
+        26 => {
+            // rows whose maxima are far apart (each row stays well inside the exponent range of f32 and f64)
+            name = "softmax-wide".into();
+            let last = *d.last().unwrap();
+            let wide: Vec<f64> = q.chunks(last).flat_map(|row| {
+                let off = *r.pick(&[-80.0, -60.0, -30.0, 0.0, 30.0, 60.0, 80.0]);
+                row.iter().map(move |x| off + x).collect::<Vec<f64>>()
+            }).collect();
+            check_value(ctx, "softmax", &d, &wide, &OpKind::Softmax, false)
+        }
+        27 => {
+            name = "exp-wide".into();
+            let wide: Vec<f64> = q.iter().map(|x| x * 10.0).collect();
+            check_value(ctx, "exp", &d, &wide, &OpKind::Exp, false)
+        }
+        _ => {
+            name = "sigmoid-wide".into();
+            let wide: Vec<f64> = q.iter().map(|x| x * 10.0).collect();
+            check_value(ctx, "sigmoid", &d, &wide, &OpKind::Sigmoid, false)
         }
     }
     let desc = format!("{}|{:?}", name, d);
